@@ -108,7 +108,7 @@ def rbAllowed (phase : Nat) : List String :=
   -- before the swap the source's location map depends on which RW replica served the controller's
   -- widening reads, so it is not observed
   if phase = 1 then ["w", "r", "full", "rbreload", "rbend", "punch"]
-  else ["w", "r", "full", "holes", "loc", "meta", "imeta", "apply", "lunmap", "rbpromote", "rbend", "cands", "punch", "cmp", "csnap", "killq"]
+  else ["w", "r", "full", "holes", "loc", "meta", "imeta", "apply", "lunmap", "rbpromote", "rbend", "cands", "punch", "cmp", "csnap", "killq", "crevert"]
 
 partial def loop (h : IO.FS.Stream) (out : IO.FS.Stream) (r : Rep) : IO Unit := do
   let line ← h.getLine
@@ -130,6 +130,10 @@ partial def loop (h : IO.FS.Stream) (out : IO.FS.Stream) (r : Rep) : IO Unit := 
       let (r', o) := r.step (.write off len tag)
       out.putStrLn (showOut o ++ " reps=2"); loop h out { r' with qDead := true }
     | _, _, _ => out.putStrLn "bad-op"; loop h out r
+  | ["crevert", n] =>   -- Controller.Revert: every RW replica reverts through its REST endpoint
+    if r.rb ≠ 3 then do out.putStrLn "inadmissible"; loop h out r else
+    let (r', o) := r.step (.revert n)
+    out.putStrLn (showOut o); loop h out r'
   | ["csnap", n] =>   -- Controller.Snapshot while all three replicas are RW: a user snapshot on each
     if r.rb ≠ 3 ∨ r.qDead then do out.putStrLn "inadmissible"; loop h out r else
     let (r', o) := r.step (.snap n true)
